@@ -892,6 +892,7 @@ func partDeterminism(c *vh.Ctx, m *vh.Model, ch *chainT, idx int) {
 		o := observe(n.bc, ch, h.allStates)
 		c.Eval(class, fmt.Sprintf("%d/%s", idx, h.name))
 		if hi == 0 {
+			partStateRoot(c, m, n, ch)
 			ref = o
 			// the reference history must itself agree with the builder (GenerateChain)
 			last := ch.blocks[len(ch.blocks)-1]
@@ -949,6 +950,44 @@ func fixDerived(rs types.Receipts, b *types.Block) types.Receipts {
 		out[i] = &cp
 	}
 	return out
+}
+
+// partStateRoot: the state root of the composed model (C10 specification root of the account listing
+// keccak(address) -> rlp([nonce, balance, storage root, code hash]), Import/ImportTx.v tx_state_root)
+// against header.Root / StateDB.IntermediateRoot for the post-state of every block; the accounts are
+// sent in a random order (the driver additionally feeds them to the trie in two orders)
+func partStateRoot(c *vh.Ctx, m *vh.Model, n *node, ch *chainT) {
+	for i, b := range ch.blocks {
+		sdb, err := n.bc.StateAt(b.Root())
+		if err != nil {
+			continue
+		}
+		dump := sdb.RawDump()
+		var accts []string
+		ok := true
+		for a, acc := range dump.Accounts {
+			if len(a) != 40 {
+				ok = false // no address preimage for this leaf
+				break
+			}
+			accts = append(accts, fmt.Sprintf("0x%s:%d:%s:0x%s:0x%s", a, acc.Nonce, acc.Balance, acc.Root, acc.CodeHash))
+		}
+		if !ok {
+			c.Count("state-root:preimage-missing(skipped)")
+			continue
+		}
+		sort.Strings(accts)
+		for k := len(accts) - 1; k > 0; k-- {
+			j := c.Rng.Intn(k + 1)
+			accts[k], accts[j] = accts[j], accts[k]
+		}
+		req := "_"
+		if len(accts) > 0 {
+			req = strings.Join(accts, ",")
+		}
+		c.Correspond("StateDB.IntermediateRoot~tx_state_root", fmt.Sprintf("%s block %d (%d accounts)", ch.spec.name, i+1, len(accts)),
+			"ok "+vh.Hex(b.Root().Bytes()), m.Ask("stateroot "+req))
+	}
 }
 
 // model correspondence on the commitments of every block of the chain
@@ -1463,6 +1502,28 @@ func partBuilder(c *vh.Ctx, m *vh.Model, ch *chainT, idx int, k int) {
 		}
 		sign(hog, types.NewTransaction(hn, addrs[(hog+1)%4], big.NewInt(1), a.bc.CurrentBlock().GasLimit()-uint64(30000+r.Intn(40000)), big.NewInt(1000000000), nil))
 		failKinds = append(failKinds, "gas-hog")
+	}
+	nextNonce := func(ki int) uint64 {
+		hn := st.GetNonce(addrs[ki])
+		for _, tx := range offered {
+			if f, _ := types.Sender(types.NewEIP155Signer(ch.spec.cfg.ChainId), tx); f == addrs[ki] && tx.Nonce() >= hn {
+				hn = tx.Nonce() + 1
+			}
+		}
+		return hn
+	}
+	if !ch.spec.cfg.IsEIP155(next) && r.Bool() {
+		// replay-protected before the EIP155 height: the pool takes it, the worker must leave it out
+		ki := r.Intn(4)
+		ptx, _ := types.SignTx(types.NewTransaction(nextNonce(ki), addrs[(ki+1)%4], big.NewInt(3), 21000, gwei(), nil), types.NewEIP155Signer(ch.spec.cfg.ChainId), keys[ki])
+		offered = append(offered, ptx)
+		failKinds = append(failKinds, "replay-protected-before-fork")
+	}
+	if r.Intn(3) == 0 { // underpriced: below the pool's price limit, never pending
+		ki := r.Intn(4)
+		utx, _ := types.SignTx(types.NewTransaction(nextNonce(ki), addrs[(ki+1)%4], big.NewInt(1), 21000, big.NewInt(0), nil), types.HomesteadSigner{}, keys[ki])
+		offered = append(offered, utx)
+		failKinds = append(failKinds, "underpriced")
 	}
 	// random arrival order at the pool
 	for i := len(offered) - 1; i > 0; i-- {
